@@ -165,6 +165,13 @@ func ArchByName(n string) *Arch {
 func (a *Arch) Number(name string) (uint32, bool) { v, ok := a.num[name]; return v, ok }
 
 // SortedNames returns the table's names ordered by (oracle) number.
+// SortedByNumber lists the names in ascending order of their syscall numbers.
+func (a *Arch) SortedByNumber() []string {
+	names := a.SortedNames()
+	sort.SliceStable(names, func(i, j int) bool { return a.num[names[i]] < a.num[names[j]] })
+	return names
+}
+
 func (a *Arch) SortedNames() []string {
 	names := make([]string, 0, len(a.num))
 	for n := range a.num {
